@@ -27,7 +27,7 @@ ASSUMPTIONS = ["ref/rpmvercmp.c is a faithful transcription of upstream rpmvercm
 
 SIGMA = ["0", "1", "9", "a", "B", ".", "é", "~", "^"]
 BOUNDS = {"quick": {"max_len": 3, "evr_versions": 12, "list_len": 3},
-          "thorough": {"max_len": 4, "evr_versions": 43, "list_len": 3}}
+          "thorough": {"max_len": 4, "plus_len5_over": "0 1 a . ~ ^", "evr_versions": 43, "list_len": 3}}
 CAP_S = {"quick": 120, "thorough": 1200}
 
 HERE = os.path.dirname(os.path.dirname(os.path.abspath(__file__)))
@@ -144,7 +144,12 @@ def model_cmp(a, b):
         i += 1
 
 
+SIGMA5 = ["0", "1", "a", ".", "~", "^"]     # reduced alphabet for the length-5 universe (thorough)
+
+
 def universe(max_len):
+    if max_len == 5:
+        return list(enumx.text_strings(SIGMA5, 5))
     return list(enumx.text_strings(SIGMA, max_len))
 
 
@@ -183,6 +188,9 @@ def units(tier, seed):
     rows = 64 if tier == "quick" else 48
     us = [{"part": "reference-validation"}]
     us += [{"part": "vercmp", "lo": lo, "hi": min(n, lo + rows)} for lo in range(0, n, rows)]
+    if tier == "thorough":
+        n5 = len(universe(5))
+        us += [{"part": "vercmp", "lo": lo, "hi": min(n5, lo + 40), "max_len": 5} for lo in range(0, n5, 40)]
     nv = len(evr_versions(tier))
     us += [{"part": "evr", "vi": i} for i in range(nv)]
     us += [{"part": "operators", "shard": i, "of": 16} for i in range(16)]
@@ -386,7 +394,8 @@ def run_unit(unit, tier):
         return res
 
     if part == "vercmp":
-        u = universe(b["max_len"])
+        ml = unit.get("max_len", b["max_len"])
+        u = universe(ml)
         n = len(u)
         lo, hi = unit["lo"], unit["hi"]
         mat = ref_matrix(u, lo, hi)
@@ -417,7 +426,7 @@ def run_unit(unit, tier):
                     res.violation("vercmp:matches-rpm", {"kind": "pair", "a": a, "b": bb}, exp, got)
                 rj = rank[j]
                 if got != ((ra > rj) - (ra < rj)):
-                    res.violation("vercmp:total-preorder", {"kind": "rank", "a": a, "b": bb, "max_len": b["max_len"]},
+                    res.violation("vercmp:total-preorder", {"kind": "rank", "a": a, "b": bb, "max_len": ml},
                                   "sign(rank a - rank b) = %d" % ((ra > rj) - (ra < rj)), got)
         res.outcomes.update(["vercmp:-1", "vercmp:0", "vercmp:1"][k] for k in range(3)
                             if any(mat[x] == k - 1 for x in range(0, len(mat), max(1, len(mat) // 2000))))
